@@ -1,4 +1,5 @@
 import PV.IC10.Machine
+import PV.Model.Cfg
 /-
 Validator for a register allocation (C04): given the code before allocation (registers of type `R`), the renaming `ρ` to
 the allocated registers and a liveness certificate, `okProg` checks locally, instruction by instruction, that
@@ -73,6 +74,23 @@ def okProg (ρ : R → R') (C : Cert R) (P : List (Instr R V)) : Bool :=
 /-- the live-in of `next` is covered by the live-out of `pc` -/
 def succOk (C : Cert R) (pc next : Nat) : Bool :=
   (C.liveIn next).all (fun v => (C.liveOut pc).contains v)
+
+end
+end PV.AllocCheck
+
+namespace PV.AllocCheck
+open PV.IC10
+
+section
+variable {R V : Type} [DecidableEq R] [Special R]
+
+/-- every control-flow edge that can be read off the program (`PV.Cfg.succs`), and every declared successor of an
+    indirect jump (`j ra`: the return points; `jr r`: the jump-table window), is covered by the certificate -/
+def edgesOk (sem : Sem V) (C : Cert R) (P : List (Instr R V)) (declared : Nat → List Nat) : Bool :=
+  P.zipIdx.all (fun (i, pc) =>
+    match PV.Cfg.succs sem pc i with
+    | some l => l.all (fun n => succOk C pc n)
+    | none => (declared pc).all (fun n => succOk C pc n))
 
 end
 end PV.AllocCheck
